@@ -54,6 +54,7 @@ def program(sfile):
 def machine(path, sfile, rname, mem, args, z3=True):
     dom = WordDomain(consts=U.SHARED.get("consts"))
     dom.use_z3 = z3
+    dom.incremental = True
     m = armword.A64(dom, path, armword.routine(program(sfile), PRE + rname), rname, mem, args)
     return dom, m
 
@@ -202,7 +203,7 @@ def gen_mont(tu, rname):
                     m.regs[r] = dom.input_word(sname)
             if path.trace:
                 raise ExtractionError("%s: the rows before the first compare contain a branch (the abstraction point assumes straight-line code)" % rname)
-            dom.facts = []
+            dom.reset_facts()
             Tabs = sum((Poly.var("S_" + r) * (1 << (64 * i)) for i, r in enumerate(tregs)), Poly())
             dom.add_fact(Tabs, 0, 2 * Q - 1)
             if m.run(start=cut) is not None:
